@@ -12,9 +12,9 @@ import buildcorr
 import vlib
 
 WORDS = ["foo", "bar", "Baz", "x1", "y z", "42", "äö", "日本", "𝒳", "a b c", "q"]
-TAGS = ["span", "div", "b", "small", "ref", "code", "center", "s"]
-UNPARSED = ["nowiki", "pre", "math", "source"]
-SINGLE = ["br", "hr", "wbr"]
+TAGS = ["span", "div", "b", "small", "ref", "code", "center", "s", "DIV", "Span", "Ref", "SUP", "bLoCkQuOtE"]
+UNPARSED = ["nowiki", "pre", "math", "source", "NoWiki", "PRE"]
+SINGLE = ["br", "hr", "wbr", "BR", "Hr"]
 ENTS = [("amp", True, False, "x"), ("nbsp", True, False, "x"), ("Sigma", True, False, "x"), ("sup2", True, False, "x"), ("frac12", True, False, "x"),
         ("there4", True, False, "x"), ("thetasym", True, False, "x"), ("1114111", False, False, "x"), ("10FFFF", False, True, "x"), ("00065", False, False, "x"), ("107", False, False, "x"),
         ("1F", False, True, "x"), ("e9", False, True, "X")]
